@@ -54,10 +54,15 @@ Checked for every SVG:
      (24 + 96 * (leftP + (p - floor(p)) * width), y(sample)) (exact oracle as in part "wrap"); when |wrap| >= 1e6 only a
      point in the track at that depth is required,
   e. conversely every point that is not on a track edge (wrap interpolation points are always on an edge) is such a
-     sample point - so off scale values, values <= 0 on a logarithmic scale and absent values draw nothing,
+     sample point - so off scale values, values <= 0 on a logarithmic scale and absent values draw nothing; a point ON
+     a track edge at the depth of a value <= 0 (logarithmic curves only) must be explainable as the first wrap
+     interpolation point towards the next present sample (wrap change of 4 or more),
   f. the "Output" sections are exactly the output channels the format uses; the plot call returns the curve ids and the
      number of points (present samples * curves); LIS and LAS input both produce a file.
-Every plot runs under a SIGALRM time limit.
+Every plot runs under a SIGALRM time limit.  Not generated (outside the quantifier, see the final diagnostics of the
+author's report): PRES rows with equal edges or edges <= 0 on GRAD, unknown TRAC strings, non-integer scale overrides,
+log passes of a single frame.  KNOWN_FINDINGS below lists the genuine defects of the unchanged repository that are
+generated but not judged.
 
 Deterministic for --seed.  Usage: c19_plot.py --seed N --cases N [--part wrap|plot|both] [--only INDEX] [--no-known]
                                  [--keep DIR] (keep the generated input and SVG files of failing cases)
@@ -123,8 +128,28 @@ from fractions import Fraction
 #     (0, 0.0), expected 1.2).  None of these can come from LIS data (representation code 68 is within 1e-39..1.7e38).
 #     Not judged: anything on inputs where the exact val - leftL, rightL - leftL, p (linear) or val / leftL,
 #     rightL / leftL, leftL / rightL (logarithmic) is outside [2**-1022, 2**1023] in magnitude (and not zero).
-KNOWN_FINDINGS = ['las-plot-frame-holder-api', 'wrap-change-across-absent-gap', 'pos-one-ulp-right-of-track',
-                  'binary64-headroom']
+#
+# 'lis-single-data-record':
+#     (root cause already recorded for C11) A LIS log pass whose frames all sit in ONE data record has
+#     Rle.frameSpacing() == None, so Plot._loadFrameSet() -> LogPass.setFrameSetChX() -> frameFromX() raises
+#     TypeError: unsupported operand type(s) for //: 'float' and 'NoneType' and no plot is written.  Minimal input:
+#     DFSR + one data record with 2 frames + FILM/PRES.  Not judged: that TypeError on such log passes.
+#
+# 'lis-last-frame-not-plotted':
+#     PlotLogs (and this check) plot a whole LIS log pass with plotLogPassLIS(file, logPass, logPass.xAxisFirstEngVal,
+#     logPass.xAxisLastEngVal, ...).  Plot._loadFrameSet() -> LogPass.setFrameSetChX() turns that into
+#     slice(frameFromX(first), frameFromX(last)), whose stop is exclusive: the LAST frame of every LIS log pass is never
+#     loaded nor plotted (8 frames: the plot call reports 7 points per curve; the pane still spans all 8 depths).
+#     Not judged: check d and the point count for the last frame of LIS log passes.
+#
+# 'xml-curve-repeated-per-channel':
+#     FilmCfgXMLRead.addXMLRoot() appends the film id to _chOutpMnemFilmMap[channel] once per LgCurve, so with k curves
+#     on one channel in an LgFormat PresCfg.add() registers every one of them k times and _plotSingleOutput() draws
+#     each of these curves k times (k * k polylines, point count k times too large; the picture is the same).  Built-in:
+#     Formation_Test (BQP1 on 4 curves).  Not judged: the multiplicity of curve ids and of the point count returned by
+#     the plot call for LgFormat plots.
+KNOWN_FINDINGS = ['xml-curve-repeated-per-channel', 'lis-last-frame-not-plotted', 'las-plot-frame-holder-api', 'wrap-change-across-absent-gap', 'pos-one-ulp-right-of-track',
+                  'binary64-headroom', 'lis-single-data-record']
 
 _HERE = os.path.dirname(os.path.abspath(__file__))
 _REPO = os.environ.get('PYVC_REPO') or '/repo'
@@ -144,6 +169,11 @@ from TotalDepth.util.plot import PRESCfg, PRESCfgXML, FILMCfgXML, Plot  # noqa: 
 from TotalDepth import PlotLogs  # noqa: E402
 
 USE_KNOWN = True
+STATS = {}
+
+
+def stat(k, n=1):
+    STATS[k] = STATS.get(k, 0) + n
 PLOT_TIME_LIMIT = 20        # seconds per plot
 F = Fraction
 MAXF = F(2) ** 1023
@@ -848,6 +878,8 @@ def gen_log(rnd, fmt_list, for_lis):
     for extra in rnd.sample(CHANNEL_POOL, 2):                   # channels no format uses
         if extra not in chans and rnd.random() < 0.4 and all(extra != c['outp'] for f in fmt_list for c in f['curves']):
             chans.append(extra)
+    if not chans:
+        chans = [rnd.choice(CHANNEL_POOL)]
     data = {}
     kinds = {}
     for ch in chans:
@@ -881,7 +913,9 @@ def build_lis(rnd, log, tables):
         for c in log['chans']:
             fb += L.enc68(log['data'][c][i])
         frames.append(fb)
-    per = rnd.choice([1, 3, 8, 50])
+    n = len(frames)
+    per = n if rnd.random() < 0.08 else rnd.choice([p for p in (1, 3, 8, 20) if p < n])
+    log['single_record'] = per >= n
     recs = []
     for i in range(0, len(frames), per):
         recs.append(L.data_record(0, frames[i:i + per], L.enc68(log['xs'][i]) if implied else None))
@@ -1083,6 +1117,8 @@ def judge_svg(svg, fmt, log, desc):
         tracks = [(left + PX * c['lP'], left + PX * c['rP']) for c in curves]
         claimed = set()
         for pts in polys:
+            stat('polylines')
+            stat('points', len(pts))
             if not pts:
                 fail('empty polyline', name)
                 continue
@@ -1108,14 +1144,24 @@ def judge_svg(svg, fmt, log, desc):
                     # c. no point for absent values
                     if not any(a - tol <= y <= b + tol for a, b in spans):
                         if known('wrap-change-across-absent-gap') and _gap_excused(y, ys, vals, model, tol):
-                            pass
+                            stat('known:gap points')
                         else:
                             fail('curve point at a depth without a present sample', [x, y],
                                  [[round(a, 1), round(b, 1)] for a, b in spans][:6], output=name)
                             break
                     # e. a point that is not on a track edge is a sample point
-                    if all(abs(x - tracks[k][0]) <= tol or abs(x - tracks[k][1]) <= tol for k in owners):
-                        continue
+                    if any(abs(x - tracks[k][0]) <= tol or abs(x - tracks[k][1]) <= tol for k in owners):
+                        # an edge point at the depth of a sample that can not be transformed (<= 0, logarithmic) must
+                        # be explainable as a wrap interpolation point of the NEXT present sample
+                        for i in present:
+                            if abs(ys[i] - y) <= tol and all(model[i][k][0] == 'math' for k in owners) and \
+                                    not _interpolation_possible(i, present, model, owners):
+                                fail('curve point at the depth of a value <= 0 on a logarithmic scale', [x, y], None,
+                                     output=name, value=vals[i], frame=i)
+                                break
+                        else:
+                            continue
+                        break
                     hit = False
                     for i in present:
                         if abs(ys[i] - y) > tol:
@@ -1134,8 +1180,11 @@ def judge_svg(svg, fmt, log, desc):
         # d. every on scale sample has its point
         allpts = [pt for pts in polys for pt in pts]
         for i in present:
+            if i == len(vals) - 1 and log.get('drop_last'):
+                continue
             for k, c in enumerate(curves):
                 st, w, fr, p, loose = model[i][k]
+                stat('samples:' + st)
                 if st != 'on':
                     continue
                 a, b = tracks[k]
@@ -1154,6 +1203,24 @@ def judge_svg(svg, fmt, log, desc):
                 continue
             break
     return bad
+
+
+def _interpolation_possible(i, present, model, owners):
+    """Can Plot._interpolateBackup() put a point at the depth of sample i?  Only as the start of the interpolation to
+    the next present sample j (then xPrev is sample i) when the wrap count changes by so much that the first
+    interpolated depth is practically that of sample i."""
+    later = [j for j in present if j > i]
+    if not later:
+        return False
+    j = later[0]
+    for k in owners:
+        sj = model[j][k]
+        if sj[0] in ('absent', 'math'):
+            continue
+        prev = [model[h][k] for h in present if h < j and model[h][k][0] not in ('absent', 'math')]
+        if prev and (sj[4] or prev[-1][4] or abs(sj[1] - prev[-1][1]) >= 4):
+            return True
+    return False
 
 
 def _gap_excused(y, ys, vals, model, tol):
@@ -1240,6 +1307,39 @@ def make_plot_xml(case):
     return Plot.Plot(fc, PRESCfgXML.PresCfgXMLRead(fc, uid), case['scale_arg'])
 
 
+def _plot_lis_record_set(case, tmp, lisf, prs, res):
+    src = case['source']
+    lp = prs.logPass
+    if src == 'lis-internal':
+        lisf.seekLr(prs.tellFilm)
+        lr_film = LogiRec.LrTableRead(lisf)
+        lisf.seekLr(prs.tellPres)
+        lr_pres = LogiRec.LrTableRead(lisf)
+        plot = Plot.PlotReadLIS(lr_film, lr_pres, None, None, case['scale_arg'])
+        films = {k: Mnem.Mnem(case['fmts'][k]['uid']) for k in case['fmts']}
+        if sorted(f.pStr(strip=True) for f in plot.filmIdS()) != sorted(films):
+            for key in case['fmts']:
+                res[key] = dict(path=None, ret=None, via='direct',
+                                error='film ids %r' % sorted(f.pStr(strip=True) for f in plot.filmIdS()))
+            return
+    else:
+        plot = make_plot_xml(case)
+        films = {case['uid']: case['uid']}
+    for key, fid in films.items():
+        p = os.path.join(tmp, 'plot_%s.svg' % re.sub(r'\W', '_', key))
+        r = dict(path=None, ret=None, error=None, via='direct')
+        try:
+            if plot.hasDataToPlotLIS(lp, fid):
+                r['ret'] = limited(plot.plotLogPassLIS, lisf, lp, lp.xAxisFirstEngVal, lp.xAxisLastEngVal, fid, p,
+                                   frameStep=1, title='Plot: %s <&> "%s"' % (key, src))
+        except Exception as e:      # noqa
+            r['error'] = ''.join(traceback.format_exception_only(type(e), e)).strip()
+            r['tb'] = traceback.format_exc(limit=-3)
+        if os.path.isfile(p):
+            r['path'] = p
+        res[key] = r
+
+
 def run_case_plots(case, tmp):
     """Returns {film key: dict(path=..., ret=..., error=..., via=...)} for every film of the case."""
     res = {}
@@ -1265,42 +1365,16 @@ def run_case_plots(case, tmp):
             return res
         lisf = File.FileRead(fp_in, theFileId=fp_in, keepGoing=False)
         idx = FileIndexer.FileIndex(lisf)
-        prss = list(idx.genPlotRecords(fromInternalRecords=(src == 'lis-internal')))
-        if len(prss) != 1:
+        nsets = 0
+        for prs in idx.genPlotRecords(fromInternalRecords=(src == 'lis-internal')):
+            # NOTE: the generator yields one mutable object and clears it later: use it inside the loop
+            nsets += 1
+            if nsets > 1:
+                break
+            _plot_lis_record_set(case, tmp, lisf, prs, res)
+        if nsets != 1:
             for key in case['fmts']:
-                res[key] = dict(path=None, ret=None, error='%d plot record sets' % len(prss), via='direct')
-            return res
-        prs = prss[0]
-        lp = prs.logPass
-        if src == 'lis-internal':
-            lisf.seekLr(prs.tellFilm)
-            lr_film = LogiRec.LrTableRead(lisf)
-            lisf.seekLr(prs.tellPres)
-            lr_pres = LogiRec.LrTableRead(lisf)
-            plot = Plot.PlotReadLIS(lr_film, lr_pres, None, None, case['scale_arg'])
-            films = {k: Mnem.Mnem(case['fmts'][k]['uid']) for k in case['fmts']}
-            if sorted(f.pStr(strip=True) for f in plot.filmIdS()) != sorted(films):
-                for key in case['fmts']:
-                    res[key] = dict(path=None, ret=None, via='direct',
-                                    error='film ids %r' % sorted(f.pStr(strip=True) for f in plot.filmIdS()))
-                return res
-        else:
-            plot = make_plot_xml(case)
-            films = {case['uid']: case['uid']}
-        for key, fid in films.items():
-            p = os.path.join(tmp, 'plot_%s.svg' % re.sub(r'\W', '_', key))
-            r = dict(path=None, ret=None, error=None, via='direct')
-            try:
-                if plot.hasDataToPlotLIS(lp, fid):
-                    r['ret'] = limited(plot.plotLogPassLIS, lisf, lp, lp.xAxisFirstEngVal, lp.xAxisLastEngVal, fid, p,
-                                       frameStep=1, title='Plot: %s <&> "%s"' % (key, src))
-                    r['called'] = True
-            except Exception as e:      # noqa
-                r['error'] = ''.join(traceback.format_exception_only(type(e), e)).strip()
-                r['tb'] = traceback.format_exc(limit=-3)
-            if os.path.isfile(p):
-                r['path'] = p
-            res[key] = r
+                res[key] = dict(path=None, ret=None, error='%d plot record sets' % nsets, via='direct')
         return res
     # LAS
     fp_in = os.path.join(tmp, 'in.las')
@@ -1357,6 +1431,7 @@ def gen_plot_case(rnd, idx):
     log = gen_log(rnd, list(fmts.values()), for_lis)
     case['fmts'] = fmts
     case['log'] = log
+    log['drop_last'] = for_lis and known('lis-last-frame-not-plotted')
     if for_lis:
         tables = [film, pres] if source == 'lis-internal' else []
         case['bytes'] = build_lis(rnd, log, tables)
@@ -1405,7 +1480,12 @@ def run_plot_case(rnd, idx, keep=None):
             expect_file = bool(plotted)
             if is_las and r['via'] == 'direct' and known('las-plot-frame-holder-api'):
                 if r['path'] is None:
+                    stat('known:las direct')
                     continue            # the known finding: no plot from a LAS file
+            if log.get('single_record') and known('lis-single-data-record') and r['path'] is None and (
+                    case['cli'] or (r['error'] or '').startswith('TypeError: unsupported operand type(s) for //')):
+                stat('known:single record')
+                continue
             if r['error'] is not None and not (case['cli'] and r['path']):
                 fail(key, 'plotting raised (%s)' % r['via'], observed=r['error'], tb=r.get('tb'))
                 continue
@@ -1417,6 +1497,7 @@ def run_plot_case(rnd, idx, keep=None):
                     fail(key, 'a plot without any curve of the log (%s)' % r['via'], observed=r['path'])
                 continue
             nontrivial = True
+            stat('svg:%s:%s' % (case['source'], r['via']))
             try:
                 svg = read_svg(r['path'])
             except Exception as e:      # noqa
@@ -1432,8 +1513,17 @@ def run_plot_case(rnd, idx, keep=None):
                     fail(key, 'return value of the plot call', observed=repr(r['ret']))
                     continue
                 want_ids = sorted(c['id'] for c in plotted)
-                want_n = sum(sum(1 for v in log['data'][c['outp']] if v != ABSENT) for c in plotted)
-                if got_ids != want_ids or npts != want_n:
+                dl = 1 if log.get('drop_last') else 0
+
+                def npresent(c):
+                    return sum(1 for v in log['data'][c['outp']][:len(log['xs']) - dl] if v != ABSENT)
+                want_n = [sum(npresent(c) for c in plotted)]
+                if case['source'] != 'lis-internal' and known('xml-curve-repeated-per-channel'):
+                    mult = {c['id']: sum(1 for d in plotted if d['outp'] == c['outp']) for c in plotted}
+                    if got_ids != want_ids:
+                        want_ids = sorted(i for c in plotted for i in [c['id']] * mult[c['id']])
+                    want_n.append(sum(npresent(c) * mult[c['id']] for c in plotted))
+                if got_ids != want_ids or npts not in want_n:
                     fail(key, 'return value of the plot call (%s)' % r['via'], observed=[got_ids, npts],
                          expected=[want_ids, want_n])
         if bad and keep:
@@ -1485,6 +1575,7 @@ def main():
                 bad.append(w)
     print('c19_plot: repo=%s seed=%d cases=%d (wrap %d, plot %d) nontrivial=%d failures=%d' % (
         _REPO, args.seed, ran, count['wrap'], count['plot'], nontrivial, nbad))
+    print('c19_plot: ' + ', '.join('%s=%d' % kv for kv in sorted(STATS.items())))
     sys.stdout.flush()
     print(json.dumps(dict(cases=ran, nontrivial=nontrivial, bad=bad), default=repr))
     return 1 if bad else 0
